@@ -1652,7 +1652,8 @@ class Fxp():
         self.status = {
             'overflow': False,
             'underflow': False,
-            'inaccuracy': False}
+            'inaccuracy': False,
+            'extended_prec': self.n_word is not None and self.n_word >= _n_word_max}
 
     def _convert_op_input_value(self, x, op_input_size=None):
         if not isinstance(x, Fxp):
